@@ -24,15 +24,18 @@ fn check_matrix_packers(ctx: &Ctx) -> usize {
     let mut n = 0;
     let mut rng = Rng::derive(ctx.seed(), 11, 77);
     for case in 0..ctx.args.pick(400, 4000) {
-        let width = rng.range(1, 200) as usize;
+        // widths up to 420 (several packed words), ones from dense (1/3) to a handful per row, so that
+        // whole 64-column words are empty next to non-empty ones
+        let width = if case % 3 == 0 { rng.range(65, 420) as usize } else { rng.range(1, 200) as usize };
         let height = width + rng.below(4) as usize;
         let tail = rng.range(1, width as u64) as usize;
+        let density = *rng.pick(&[3u64, 3, 12, 60, 200]);
         let mut dense = DenseBinaryMatrix::new(height, width, 0);
         let mut sparse = SparseBinaryMatrix::new(height, width, tail);
         let mut model = vec![vec![0u8; width]; height];
         for r in 0..height {
             for c in 0..width {
-                if rng.chance(1, 3) {
+                if rng.chance(1, density) {
                     model[r][c] = 1;
                     dense.set(r, c, Octet::one());
                     sparse.set(r, c, Octet::one());
